@@ -41,7 +41,7 @@ from . import common
 ID = "C20"
 LEVEL = "exploration"
 TIERS = {
-    "quick": {"runs": 260, "wall": 80, "run_timeout": 200, "shrink_s": 60},
+    "quick": {"runs": 140, "wall": 60, "run_timeout": 200, "shrink_s": 60},
     "thorough": {"runs": 12000, "wall": 1100, "run_timeout": 400, "shrink_s": 180},
 }
 RULE = ("case = 1..3 generated input files (csv with delimiter , ; or tab / rttm / a directory of files; 2..3 annotators, <= 6 units "
@@ -93,9 +93,9 @@ def gen(ch, tier):
         opts["beta"] = ch.choice([0.0, 0.5, 2.0])
     if ch.coin(0.4):
         opts["empty_delta"] = ch.choice([0.5, 1.5, 2.0])
-    if ch.coin(0.85):
+    if ch.coin(0.93 if tier == "quick" else 0.85):
         opts["precision"] = ch.choice([0.3, 0.5, 0.8, 0.2])
-    if ch.coin(0.8):
+    if ch.coin(0.9 if tier == "quick" else 0.8):
         opts["n_samples"] = ch.randint(2, 8)
     else:
         opts["n_samples_default"] = True
@@ -225,7 +225,8 @@ def parse_csv(path, sep, opts):
             cur["gamma-cat"] = float(r[i])
             i += 1
         if opts.get("gamma_k"):
-            cur["gamma-k"] = {str(k): float(v) for k, v in ast.literal_eval(r[i]).items()}
+            cell = eval(r[i], {"__builtins__": {}}, {"inf": float("inf"), "nan": float("nan")})  # dict repr, may hold -inf
+            cur["gamma-k"] = {str(k): float(v) for k, v in cell.items()}
         res.append(cur)
     return header, res
 
